@@ -10,6 +10,9 @@ import GoZero.C04.Model
 namespace GoZero.C04
 namespace Spec
 
+/-- the property's timeout of a route: its own (`WithTimeout`) if positive, else the global one (ms → ns) -/
+def routeTimeout (own globalMs : Int) : Int := if own > 0 then own else globalMs * 1000000
+
 /-- what a client sees -/
 structure View where
   code : Nat
@@ -83,16 +86,59 @@ def firstPanic : List Act → Bool → Option Nat
 
 def hasFlush (script : List Act) : Bool := script.any (fun a => a == .flush)
 
+/-! ### scripts with `Flush` (streaming): what the work has handed to the client so far
+
+`Flush` sends what the work has produced up to now: the status (the first `WriteHeader`, else 200) and the headers
+are fixed by the first `Flush`, every `Flush` sends the chunks written since the previous one.  This is what a client
+of the *unwrapped* handler sees; the wrapper must be transparent to it. -/
+
+structure Stream where
+  sent    : Option (Nat × List (Nat × Nat)) := none   -- status and headers fixed by the first Flush
+  code    : Option Nat := none                         -- first WriteHeader / implicit 200 of the first Write
+  hdrs    : List (Nat × Nat) := []                     -- last Set per key, sorted by key
+  flushed : List Nat := []                             -- chunks already with the client
+  pending : List Nat := []                             -- chunks written since the last Flush
+  deriving Repr, DecidableEq
+
+def setSorted (k v : Nat) : List (Nat × Nat) → List (Nat × Nat)
+  | [] => [(k, v)]
+  | (k', v') :: rest => if k < k' then (k, v) :: (k', v') :: rest else if k = k' then (k, v) :: rest
+                        else (k', v') :: setSorted k v rest
+
+def Stream.step (st : Stream) : Act → Stream
+  | .setHeader k v => { st with hdrs := setSorted k v st.hdrs }
+  | .writeHeader c => if st.code.isNone then { st with code := some c } else st
+  | .write b => { st with code := some (st.code.getD 200), pending := st.pending ++ b }
+  | .flush => { st with sent := some (st.sent.getD (st.code.getD 200, st.hdrs)),
+                        flushed := st.flushed ++ st.pending, pending := [] }
+  | .panic _ => st
+
+def stream (script : List Act) : Stream := script.foldl Stream.step {}
+
+/-- the work's complete result, streaming included (for a script without `Flush` this is `complete`) -/
+def completeF (script : List Act) : View :=
+  let st := stream script
+  match st.sent with
+  | some (c, h) => { code := c, hdrs := h, body := st.flushed ++ st.pending }
+  | none => { code := st.code.getD 200, hdrs := st.hdrs, body := st.pending }
+
+/-- what is already with the client after the first `i` actions (`none`: nothing was flushed) -/
+def streamedPrefix (script : List Act) (i : Nat) : Option View :=
+  let st := stream (script.take i)
+  st.sent.map fun p => { code := p.1, hdrs := p.2, body := st.flushed }
+
 /-- how ServeHTTP came back, as observed by the harness -/
 inductive SRet where
   | done | panic (v : Nat) | blocked | stuck
   deriving Repr, DecidableEq
 
-/-- one observed request through the *wrapped* path (duration > 0, not exempt, no Flush in the script) -/
+/-- one observed request through the *wrapped* path (duration > 0, not exempt) -/
 structure Obs where
   script  : List Act
   kind    : Option Kind      -- the expiry the harness fired (none: never)
-  firedAt : Option Nat       -- number of handler steps released before the expiry (gated runs)
+  firedLo : Nat              -- the expiry came after at least / at most that many handler steps
+  firedHi : Nat
+  gated   : Bool             -- the expiry was placed exactly (firedLo = firedHi)
   sret    : SRet
   atRet   : View             -- client view when ServeHTTP returned
   final   : View             -- client view after the handler finished everything
@@ -112,33 +158,66 @@ def writesMonotone (script : List Act) (results : List Res) : Bool :=
   | some i => writesFailFrom script results i
   | none => true
 
-/-- The property, on one observed request.  Returns the list of violated clauses (empty = holds). -/
+def positions (o : Obs) : List Nat := (List.range (o.firedHi + 1)).filter (fun i => o.firedLo ≤ i)
+
+/-- ignoring the status (the pinned `Flush` sends 200 whatever the work has set) -/
+def sameButStatus (a b : View) : Bool := a.hdrs == b.hdrs && a.body == b.body && a.code != b.code && a.code == 200
+
+def knownStreamed : String := "[known-class flush-streamed-then-timeout] the work had flushed part of its response before the deadline; the timeout reason follows it (inherent to streaming)"
+def knownStatus : String := "[known-class flush-drops-status] Flush sent status 200 instead of the status the work had set"
+def knownLate : String := "[known-class flush-after-timeout] a Flush after the timeout sent bytes the work had buffered before it behind the timeout response"
+
+/-- The property, on one observed request.  Returns the list of violated clauses (empty = holds).  Messages that
+start with `[known-class …]` are the recorded findings about `Flush`. -/
 def check (reason : List Nat) (o : Obs) : List String :=
-  let c := complete o.script
-  let okComplete := completes o.script false && o.atRet = c
+  let c := completeF o.script
+  let comp := completes o.script false
+  let okComplete := comp && o.atRet = c
+  let okCompleteButStatus := comp && hasFlush o.script && sameButStatus o.atRet c
+  let pos := positions o
+  -- the pure timeout result: nothing had been flushed when the deadline came
   let isTimeout := match o.kind with
-    | some k => o.atRet = timeout reason k
+    | some k => o.atRet = timeout reason k && pos.any (fun i => (streamedPrefix o.script i).isNone)
     | none => false
+  -- streamed prefix + reason
+  let mixAt (i : Nat) : Option View := (streamedPrefix o.script i).map fun v => { v with body := v.body ++ reason }
+  let isStreamMix := o.kind.isSome && pos.any (fun i => mixAt i == some o.atRet)
+  let isStreamMixButStatus := o.kind.isSome && pos.any (fun i => match mixAt i with
+    | some v => sameButStatus o.atRet v
+    | none => false)
+  let tookTimeout := isTimeout || isStreamMix || isStreamMixButStatus
   let e1 := match o.sret with
     | .stuck => ["wrapper did not return at the deadline while the work ignored it"]
     | .blocked => ["wrapper did not return"]
     | .panic v =>
-      (if o.atRet = untouched then [] else ["panic re-raised after something reached the client"]) ++
+      -- nothing but what the work itself had flushed may be with the client
+      let flushedOnly := (List.range (o.script.length + 1)).any fun i =>
+        match streamedPrefix o.script i with
+        | some p => o.atRet = p || sameButStatus o.atRet p
+        | none => false
+      (if o.atRet = untouched || flushedOnly then [] else ["panic re-raised after something reached the client"]) ++
       (if firstPanic o.script false = some v then [] else ["re-raised panic is not the work's panic"])
     | .done =>
-      if okComplete || isTimeout then [] else ["response is neither the work's complete result nor the timeout result (mixture)"]
-  let e2 := if o.final = o.atRet then [] else ["the response changed after the wrapper returned (late write reached the client)"]
+      if okComplete || isTimeout then []
+      else if isStreamMix then [knownStreamed]
+      else if okCompleteButStatus then [knownStatus]
+      else if isStreamMixButStatus then [knownStreamed, knownStatus]
+      else ["response is neither the work's complete result nor the timeout result (mixture)"]
+  let e2 :=
+    if o.final = o.atRet then []
+    else if hasFlush o.script && tookTimeout && o.final.code = o.atRet.code && o.final.hdrs = o.atRet.hdrs
+            && o.atRet.body.isPrefixOf o.final.body then [knownLate]
+    else ["the response changed after the wrapper returned (late write reached the client)"]
   let e3 :=
-    if isTimeout && !okComplete then
-      (match o.firedAt with
-        | some i => if writesFailFrom o.script o.results i then [] else ["a Write after the timeout did not return ErrHandlerTimeout"]
-        | none => []) ++
+    if tookTimeout && !okComplete then
+      (if o.gated then (if writesFailFrom o.script o.results o.firedHi then [] else ["a Write after the timeout did not return ErrHandlerTimeout"])
+        else []) ++
       (if writesMonotone o.script o.results then [] else ["a Write succeeded after an earlier one had failed with ErrHandlerTimeout"])
-    else if okComplete && !isTimeout then
+    else if okComplete && !tookTimeout then
       (if o.results.all (fun r => r == .ok) then [] else ["complete result although a Write was refused"])
     else []
   let e4 := match o.kind, o.sret with
-    | none, .done => if okComplete then [] else ["no expiry but not the complete result"]
+    | none, .done => if okComplete || okCompleteButStatus then [] else ["no expiry but not the complete result"]
     | _, _ => []
   e1 ++ e2 ++ e3 ++ e4
 
